@@ -1,5 +1,5 @@
 (* C02 - proofs about model/Edge.v *)
-From Coq Require Import List NArith Bool Lia ZifyBool ZifyN.
+From Coq Require Import List NArith PeanoNat Bool Lia ZifyBool ZifyN.
 From SV Require Import model.Edge.
 Import ListNotations.
 Open Scope N_scope.
@@ -516,3 +516,262 @@ Example ex_proxy_ok :
 Proof.
   split; [reflexivity|]. intros x [<-|[<-|[<-|[]]]]; reflexivity.
 Qed.
+
+(* ------------------------------------------- several messages in flight at once *)
+Definition reply_free (t : trace) : Prop := forall e, In e t -> is_reply_event e = false.
+
+Lemma reply_free_app : forall a b, reply_free a -> reply_free b -> reply_free (a ++ b).
+Proof. intros a b Ha Hb e H. apply in_app_or in H. destruct H; auto. Qed.
+
+Lemma reply_free_ticks : forall n, reply_free (repeat EvTick n).
+Proof. intros n e H. apply in_repeat_tick in H. subst e. reflexivity. Qed.
+
+Lemma queue_trace_reply_free : forall relay bs, reply_free (q_trace (queue_enqueue relay bs)).
+Proof.
+  intros relay bs. unfold queue_enqueue.
+  pose proof (writes_no_reply bs 0) as NR.
+  destruct (writes 0 bs) as [tr0 [outs|]]; cbn in NR; [|exact NR].
+  destruct (spawn_loop relay outs) as [att [rs|]]; cbn; [exact NR|].
+  apply reply_free_app; [exact NR|]. intros e [<-|[]]. reflexivity.
+Qed.
+
+(* shape of one message's run: a reply-free part, then at most the answer *)
+Lemma smtp_run_shape : forall relay bs,
+  exists pre, reply_free pre /\
+    ((fst (smtp_run relay bs) = pre /\ snd (smtp_run relay bs) = NoReply) \/
+     (exists c, fst (smtp_run relay bs) = pre ++ [EvSmtpReply c] /\ snd (smtp_run relay bs) = Replied c)).
+Proof.
+  intros relay bs. pose proof (queue_trace_reply_free relay bs) as RF.
+  unfold smtp_run, handoff, smtp_edge.
+  exists (q_trace (queue_enqueue relay bs)). split; [exact RF|].
+  destruct (q_res (queue_enqueue relay bs)); cbn; eauto.
+Qed.
+
+Lemma wsgi_run_shape : forall relay bs,
+  exists pre, reply_free pre /\
+    ((fst (wsgi_run relay bs) = pre /\ snd (wsgi_run relay bs) = NoReply) \/
+     (exists s, fst (wsgi_run relay bs) = pre ++ [EvHttpStatus s] /\ snd (wsgi_run relay bs) = Replied s)).
+Proof.
+  intros relay bs. pose proof (queue_trace_reply_free relay bs) as RF.
+  unfold wsgi_run, handoff, wsgi_edge.
+  exists (q_trace (queue_enqueue relay bs)). split; [exact RF|].
+  destruct (q_res (queue_enqueue relay bs)); cbn; eauto.
+Qed.
+
+(* an answer event occurs at most once, at the end *)
+Lemma answer_position : forall pre tl l1 e l2,
+  reply_free pre -> is_reply_event e = true -> (tl = [] \/ exists a, tl = [a]) ->
+  pre ++ tl = l1 ++ e :: l2 -> l1 = pre /\ tl = [e] /\ l2 = [].
+Proof.
+  induction pre as [|x pre IH]; intros tl l1 e l2 RF He Htl H.
+  - cbn in H. destruct Htl as [->|(a & ->)].
+    + destruct l1; discriminate.
+    + destruct l1 as [|y l1].
+      * cbn in H. injection H as -> <-. auto.
+      * cbn in H. injection H as _ H. destruct l1; discriminate.
+  - destruct l1 as [|y l1].
+    + cbn in H. injection H as -> _. rewrite (RF e) in He; [discriminate|left; reflexivity].
+    + cbn in H. injection H as -> H.
+      destruct (IH tl l1 e l2) as (-> & E2 & E3); auto.
+      intros z Hz. apply RF. right. exact Hz.
+Qed.
+
+Lemma pop_spec : forall i ps e ps', pop i ps = Some (e, ps') ->
+  exists t, nth_error ps i = Some (e :: t) /\ nth_error ps' i = Some t /\
+            forall j, j <> i -> nth_error ps' j = nth_error ps j.
+Proof.
+  induction i as [|i IH]; intros ps e ps' H; destruct ps as [|p ps]; cbn in H; try discriminate.
+  - destruct p as [|e0 p]; [discriminate|]. injection H as <- <-.
+    exists p. repeat split. intros [|j] Hj; [congruence|reflexivity].
+  - destruct (pop i ps) as [[e0 r]|] eqn:P; [|discriminate]. injection H as <- <-.
+    destruct (IH _ _ _ P) as (t & H1 & H2 & H3). exists t. repeat split; auto.
+    intros [|j] Hj; [reflexivity|]. cbn. apply H3. congruence.
+Qed.
+
+Lemma project_cons_same : forall i e g, project i ((i, e) :: g) = e :: project i g.
+Proof. intros. unfold project. cbn. rewrite N.eqb_refl. reflexivity. Qed.
+
+Lemma project_cons_other : forall i j e g, j <> i -> project i ((j, e) :: g) = project i g.
+Proof.
+  intros i j e g H. unfold project. cbn. destruct (j =? i) eqn:E; [|reflexivity].
+  apply N.eqb_eq in E. contradiction.
+Qed.
+
+Lemma project_app : forall i a b, project i (a ++ b) = project i a ++ project i b.
+Proof. intros. unfold project. rewrite filter_app, map_app. reflexivity. Qed.
+
+Lemma project_in : forall i e g, In e (project i g) -> In (i, e) g.
+Proof.
+  intros i e g H. unfold project in H. apply in_map_iff in H.
+  destruct H as ([j e'] & He & Hf). apply filter_In in Hf. destruct Hf as (Hin & Hj).
+  cbn in *. apply N.eqb_eq in Hj. subst. exact Hin.
+Qed.
+
+(* a schedule never reorders, invents or borrows events: what message i did is a
+   prefix of i's own sequential run *)
+Lemma project_prefix : forall sched ps i t, nth_error ps (N.to_nat i) = Some t ->
+  exists rest, t = project i (run_sched sched ps) ++ rest.
+Proof.
+  induction sched as [|j s IH]; intros ps i t Hn; cbn [run_sched].
+  - exists t. reflexivity.
+  - destruct (pop (N.to_nat j) ps) as [[e ps']|] eqn:P; [|apply IH; exact Hn].
+    destruct (pop_spec _ _ _ _ P) as (t' & H1 & H2 & H3).
+    destruct (N.eq_dec j i) as [->|Hne].
+    + rewrite project_cons_same. rewrite Hn in H1. injection H1 as ->.
+      destruct (IH ps' i t' H2) as (rest & ->). exists rest. reflexivity.
+    + rewrite project_cons_other by exact Hne.
+      apply (IH ps' i t). rewrite H3; [exact Hn|]. intro E. apply Hne. lia.
+Qed.
+
+Lemma run_sched_in : forall sched ps i e, In (i, e) (run_sched sched ps) ->
+  exists t, nth_error ps (N.to_nat i) = Some t.
+Proof.
+  induction sched as [|j s IH]; intros ps i e H; cbn in H; [destruct H|].
+  destruct (pop (N.to_nat j) ps) as [[e' ps']|] eqn:P; [|eapply IH; eauto].
+  destruct (pop_spec _ _ _ _ P) as (t' & H1 & H2 & H3).
+  destruct H as [H|H].
+  - injection H as -> ->. eauto.
+  - destruct (IH _ _ _ H) as (t & Ht).
+    destruct (Nat.eq_dec (N.to_nat i) (N.to_nat j)) as [E|E].
+    + rewrite E. eauto.
+    + rewrite H3 in Ht by exact E. eauto.
+Qed.
+
+Lemma nth_error_map_inv : forall (A B : Type) (f : A -> B) l n b,
+  nth_error (map f l) n = Some b -> exists a, nth_error l n = Some a /\ b = f a.
+Proof.
+  intros A B f. induction l as [|x l IH]; intros [|n] b H; cbn in *; try discriminate.
+  - injection H as <-. eauto.
+  - apply IH. exact H.
+Qed.
+
+(* where the answer of message i stands in a concurrent run *)
+Lemma concurrent_answer : forall relay msgs sched g1 g2 i e,
+  concurrent_run relay msgs sched = g1 ++ (i, e) :: g2 -> is_reply_event e = true ->
+  exists m pre, nth_error msgs (N.to_nat i) = Some m /\
+    msg_trace relay m = pre ++ [e] /\ project i g1 = pre /\ project i g2 = [].
+Proof.
+  intros relay msgs sched g1 g2 i e H He. unfold concurrent_run in H.
+  assert (Hin : In (i, e) (run_sched sched (map (msg_trace relay) msgs))).
+  { rewrite H. apply in_or_app. right. left. reflexivity. }
+  destruct (run_sched_in _ _ _ _ Hin) as (t & Ht).
+  destruct (nth_error_map_inv _ _ _ _ _ _ Ht) as (m & Hm & ->).
+  destruct (project_prefix sched _ i _ Ht) as (rest & Hp).
+  rewrite H, project_app, project_cons_same in Hp.
+  exists m. unfold msg_trace in *.
+  set (ticks := repeat EvTick (N.to_nat (m_pyields m))) in *.
+  assert (RT : reply_free ticks) by apply reply_free_ticks.
+  assert (S : exists pre tl, reply_free pre /\ (tl = [] \/ exists a, tl = [a]) /\
+              ticks ++ match m_edge m with ESmtp => fst (smtp_run relay (m_bs m))
+                                          | EWsgi => fst (wsgi_run relay (m_bs m)) end = pre ++ tl).
+  { destruct (m_edge m).
+    - destruct (smtp_run_shape relay (m_bs m)) as (pre & RF & [(E1 & _)|(c & E1 & _)]); rewrite E1.
+      + exists (ticks ++ pre), []. rewrite app_nil_r. repeat split; auto. apply reply_free_app; auto.
+      + exists (ticks ++ pre), [EvSmtpReply c]. rewrite app_assoc. repeat split; eauto. apply reply_free_app; auto.
+    - destruct (wsgi_run_shape relay (m_bs m)) as (pre & RF & [(E1 & _)|(c & E1 & _)]); rewrite E1.
+      + exists (ticks ++ pre), []. rewrite app_nil_r. repeat split; auto. apply reply_free_app; auto.
+      + exists (ticks ++ pre), [EvHttpStatus c]. rewrite app_assoc. repeat split; eauto. apply reply_free_app; auto. }
+  destruct S as (pre & tl & RF & Htl & E). rewrite E in Hp. rewrite E.
+  rewrite <- app_assoc in Hp. cbn in Hp.
+  destruct (answer_position pre tl (project i g1) e (project i g2 ++ rest) RF He Htl Hp) as (E1 & E2 & E3).
+  exists pre. subst tl. repeat split; auto.
+  destruct (project i g2); [reflexivity|discriminate].
+Qed.
+
+Lemma concurrent_smtp_own : forall relay msgs sched g1 g2 i c,
+  concurrent_run relay msgs sched = g1 ++ (i, EvSmtpReply c) :: g2 ->
+  exists m, nth_error msgs (N.to_nat i) = Some m /\ m_edge m = ESmtp /\
+    snd (smtp_run relay (m_bs m)) = Replied c /\
+    (class2 c = true ->
+       m_bs m <> [] /\
+       forall k b, nth_error (m_bs m) k = Some b ->
+         exists d, b = Done d WId /\ In (i, EvWriteDone (N.of_nat k)) g1).
+Proof.
+  intros relay msgs sched g1 g2 i c H.
+  destruct (concurrent_answer _ _ _ _ _ _ _ H eq_refl) as (m & pre & Hm & Ht & Hp & _).
+  exists m. split; [exact Hm|]. unfold msg_trace in Ht.
+  set (ticks := repeat EvTick (N.to_nat (m_pyields m))) in *.
+  destruct (m_edge m) eqn:EK.
+  - destruct (smtp_run_shape relay (m_bs m)) as (pre' & RF & [(E1 & _)|(c' & E1 & E2)]); rewrite E1 in Ht.
+    + exfalso. assert (Hin : In (EvSmtpReply c) (ticks ++ pre')) by (rewrite Ht; apply in_or_app; right; left; reflexivity).
+      pose proof (reply_free_app _ _ (reply_free_ticks _) RF _ Hin). discriminate.
+    + rewrite app_assoc in Ht. apply app_inj_tail in Ht. destruct Ht as (Hpre & Hc).
+      injection Hc as ->. split; [reflexivity|]. split; [exact E2|].
+      intros C2. pose proof (surjective_pairing (smtp_run relay (m_bs m))) as SP.
+      rewrite E1, E2 in SP.
+      destruct (smtp_2xx_implies_all_stored _ _ _ _ SP C2) as (tr0 & Etr & Hne & Hall & _).
+      apply app_inj_tail in Etr. destruct Etr as (<- & _).
+      split; [exact Hne|]. intros k b Hk. destruct (Hall k b Hk) as (d & -> & Hin).
+      exists d. split; [reflexivity|]. apply project_in. rewrite Hp, <- Hpre.
+      apply in_or_app. right. exact Hin.
+  - exfalso. destruct (wsgi_run_shape relay (m_bs m)) as (pre' & RF & [(E1 & _)|(s & E1 & _)]); rewrite E1 in Ht.
+    + assert (Hin : In (EvSmtpReply c) (ticks ++ pre')) by (rewrite Ht; apply in_or_app; right; left; reflexivity).
+      pose proof (reply_free_app _ _ (reply_free_ticks _) RF _ Hin). discriminate.
+    + rewrite app_assoc in Ht. apply app_inj_tail in Ht. destruct Ht as (_ & Hc). discriminate.
+Qed.
+
+Lemma concurrent_wsgi_own : forall relay msgs sched g1 g2 i s,
+  concurrent_run relay msgs sched = g1 ++ (i, EvHttpStatus s) :: g2 ->
+  exists m, nth_error msgs (N.to_nat i) = Some m /\ m_edge m = EWsgi /\
+    snd (wsgi_run relay (m_bs m)) = Replied s /\
+    (s / 100 = 2 ->
+       m_bs m <> [] /\
+       forall k b, nth_error (m_bs m) k = Some b ->
+         exists d, b = Done d WId /\ In (i, EvWriteDone (N.of_nat k)) g1).
+Proof.
+  intros relay msgs sched g1 g2 i s H.
+  destruct (concurrent_answer _ _ _ _ _ _ _ H eq_refl) as (m & pre & Hm & Ht & Hp & _).
+  exists m. split; [exact Hm|]. unfold msg_trace in Ht.
+  set (ticks := repeat EvTick (N.to_nat (m_pyields m))) in *.
+  destruct (m_edge m) eqn:EK.
+  - exfalso. destruct (smtp_run_shape relay (m_bs m)) as (pre' & RF & [(E1 & _)|(c & E1 & _)]); rewrite E1 in Ht.
+    + assert (Hin : In (EvHttpStatus s) (ticks ++ pre')) by (rewrite Ht; apply in_or_app; right; left; reflexivity).
+      pose proof (reply_free_app _ _ (reply_free_ticks _) RF _ Hin). discriminate.
+    + rewrite app_assoc in Ht. apply app_inj_tail in Ht. destruct Ht as (_ & Hc). discriminate.
+  - destruct (wsgi_run_shape relay (m_bs m)) as (pre' & RF & [(E1 & _)|(s' & E1 & E2)]); rewrite E1 in Ht.
+    + exfalso. assert (Hin : In (EvHttpStatus s) (ticks ++ pre')) by (rewrite Ht; apply in_or_app; right; left; reflexivity).
+      pose proof (reply_free_app _ _ (reply_free_ticks _) RF _ Hin). discriminate.
+    + rewrite app_assoc in Ht. apply app_inj_tail in Ht. destruct Ht as (Hpre & Hc).
+      injection Hc as ->. split; [reflexivity|]. split; [exact E2|].
+      intros C2. pose proof (surjective_pairing (wsgi_run relay (m_bs m))) as SP.
+      rewrite E1, E2 in SP.
+      destruct (wsgi_2xx_implies_all_stored _ _ _ _ SP C2) as (tr0 & Etr & Hne & Hall & _).
+      apply app_inj_tail in Etr. destruct Etr as (<- & _).
+      split; [exact Hne|]. intros k b Hk. destruct (Hall k b Hk) as (d & -> & Hin).
+      exists d. split; [reflexivity|]. apply project_in. rewrite Hp, <- Hpre.
+      apply in_or_app. right. exact Hin.
+Qed.
+
+(* the answer of a message does not depend on the other messages or on the schedule *)
+Lemma ack_depends_on_own_envelopes : forall relay msgs msgs' sched sched' i m,
+  nth_error msgs (N.to_nat i) = Some m -> nth_error msgs' (N.to_nat i) = Some m ->
+  (forall c, In (i, EvSmtpReply c) (concurrent_run relay msgs sched) ->
+             In (i, EvSmtpReply c) (concurrent_run relay msgs' sched') ->
+             snd (smtp_run relay (m_bs m)) = Replied c) /\
+  (forall c c', In (i, EvSmtpReply c) (concurrent_run relay msgs sched) ->
+                In (i, EvSmtpReply c') (concurrent_run relay msgs' sched') -> c = c') /\
+  (forall s s', In (i, EvHttpStatus s) (concurrent_run relay msgs sched) ->
+                In (i, EvHttpStatus s') (concurrent_run relay msgs' sched') -> s = s').
+Proof.
+  intros relay msgs msgs' sched sched' i m Hm Hm'.
+  assert (A : forall ms sc c, nth_error ms (N.to_nat i) = Some m ->
+              In (i, EvSmtpReply c) (concurrent_run relay ms sc) -> snd (smtp_run relay (m_bs m)) = Replied c).
+  { intros ms sc c Hn Hin. apply in_split in Hin. destruct Hin as (g1 & g2 & E).
+    destruct (concurrent_smtp_own _ _ _ _ _ _ _ E) as (m0 & Hm0 & _ & R & _). congruence. }
+  assert (B : forall ms sc s, nth_error ms (N.to_nat i) = Some m ->
+              In (i, EvHttpStatus s) (concurrent_run relay ms sc) -> snd (wsgi_run relay (m_bs m)) = Replied s).
+  { intros ms sc s Hn Hin. apply in_split in Hin. destruct Hin as (g1 & g2 & E).
+    destruct (concurrent_wsgi_own _ _ _ _ _ _ _ E) as (m0 & Hm0 & _ & R & _). congruence. }
+  split; [|split].
+  - intros c H1 _. exact (A _ _ _ Hm H1).
+  - intros c c' H1 H2. pose proof (A _ _ _ Hm H1). pose proof (A _ _ _ Hm' H2). congruence.
+  - intros s s' H1 H2. pose proof (B _ _ _ Hm H1). pose proof (B _ _ _ Hm' H2). congruence.
+Qed.
+
+Example ex_concurrent :
+  concurrent_run false
+    [mkMsg ESmtp 1 [Done 0 WId; Done 0 WId]; mkMsg EWsgi 1 [Done 1 WId]]
+    [0; 1; 1; 0; 1; 1; 0; 0; 0; 1; 0; 7; 0] =
+  [(0, EvTick); (1, EvTick); (1, EvWriteStart 0); (0, EvWriteStart 0); (1, EvTick); (1, EvWriteDone 0);
+   (0, EvWriteDone 0); (0, EvWriteStart 1); (0, EvWriteDone 1); (1, EvHttpStatus 204); (0, EvSmtpReply code_250)].
+Proof. reflexivity. Qed.
